@@ -80,6 +80,18 @@ theorem int_readbase_exceptions (b : Nat) (hb : 2 ≤ b) (hb36 : b ≤ 36) (n : 
 example : intText 2 524288 = "10000000000000000000".toList ∧ typeOf (.int 524288) = .fixnum := by decide
 example : intText 30 29 = ['t'] ∧ intText 24 13701 = ['n', 'i', 'l'] := by decide
 
+/-- ratio_readbase_roundtrip: without `*print-radix*` a ratio in lowest terms printed in any base 2..36
+    reads back, with `*read-base*` bound to the print base, as the same ratio (a token with a slash never
+    spells `t` or `nil`, so there is no exception as for integers). -/
+theorem ratio_readbase_roundtrip (hT : TablesOK) (b : Nat) (hb : 2 ≤ b) (hb36 : b ≤ 36) (num : Int) (den : Nat)
+    (hden : 2 ≤ den) (hco : Nat.gcd num.natAbs den = 1)
+    (rest : List Char) (hrest : termOrEnd rest = true) (fuel : Nat) :
+    ∃ y, read1 b (fuel + 1) (printRatio { base := b, radix := false } num den ++ rest) = .ok (y, rest) ∧
+      y = .ratio num den ∧ typeOf y = .ratio :=
+  ⟨_, read1_ratio_readbase hT b hb hb36 num den hden hco rest hrest fuel, rfl, rfl⟩
+
+example : printRatio { base := 36, radix := false } (-71) 1295 = "-1z/zz".toList := by decide
+
 /-- equal objects have the same type: the reader's result for a printed object has the type of the
     original, integers included (fixnum / bignum by value). -/
 theorem equal_same_type (x y : Obj) (h : objEq x y = true) : typeOf x = typeOf y := by
